@@ -554,6 +554,28 @@ theorem loop_scan_output_sound (a s : List Ty) (body : Body) (M : Nat) (c0 : Boo
           rw [hcol] at hs
           exact loop_scan_sound v (column scs' j) t w hc hs
 
+/-- Scan output of a loop that runs zero times: the runtime shapes it from the type the body declares
+    for that result (`emptyScanOk`, validated against onnxruntime), so it conforms to the reported
+    scan type too. Together with `loop_scan_output_sound` this covers every trip count. -/
+theorem loop_scan_zero_sound (w : RtVal) (t : Ty) (h : emptyScanOk w t = true) :
+    conforms w (some (scanTy t)) = true := by
+  simp only [emptyScanOk, Bool.and_eq_true] at h
+  simp only [conforms, Bool.and_eq_true]
+  refine ⟨h.1, ?_⟩
+  rcases t with ⟨e, _ | ds⟩
+  · simp [scanTy]
+  · obtain ⟨we, ws⟩ := w
+    rcases ws with _ | ⟨n, r⟩
+    · simp at h
+    · cases n with
+      | zero => simpa [scanTy, dimsOk] using h.2
+      | succ m => simp at h
+
+/-- No modelled routine turns a non-tensor input into a tensor claim: it raises, or (Binarizer,
+    Normalizer) hands the non-tensor type through — for which no runtime value exists. -/
+theorem nonTensor_outcomes_cover :
+    modelledOverrides.all (fun p => p.2 == "Loop" || (nonTensorOutcome p.2).isSome) = true := by decide
+
 /-! ## Non-vacuity: the hypotheses of the theorems are satisfiable and the conclusions say something -/
 
 example : inferScaler (some 2) (some 2) (tensor .f64 [.named "N", .const 2]) = .ok [tensor .f32 [.named "N", .const 2]] := by decide
